@@ -41,6 +41,9 @@ def run(ctx) -> None:
     ctx.rule("R1", "append-only write, only under (no config and not dry); dry exits 0 without writing; existing config exits 1")
     ctx.rule("R2", "templates parse with the stdlib parser; section/keys/booleans are what the readers consume; self pattern present")
     ctx.rule("R3", "initial version is in the language of the template's version pattern")
+    ctx.rule("R5", "in any project directory: a pyproject.toml without a bumpver section (other [tool.*] tables) is read without an error (C18's TOML section rule)")
+    from checks.c18 import toml_section_eval
+    toml_section_eval(ctx, "R5")
     ctx.rule("R4", "file choice: candidates == SUPPORTED_CONFIGS; configured files first, then existing, then bumpver.toml; self-snippets cover the candidates")
 
     # ---------------------------------------------------------------- R1
